@@ -354,10 +354,12 @@ def set_step(p, path, value, fmt, mustexist):
     if not calls:
         rec["why"] = "read:" + (type(exc).__name__ if exc is not None else "nomatch")
         # the gather raised (or matched nothing) before any change: the composed model must say so too
-        if exc is not None and tabs is not None and not created and not isinstance(exc, RecursionError):
+        # (no exception and no change: an optional gather that yielded nothing - the model must end `done` as well)
+        if tabs is not None and not created and not isinstance(exc, RecursionError):
             try:
                 unchanged = docenc.canon_doc_text(docenc.encode(p.data)[0])
-                rec["e2e"] = (e2e_request(), "(failed %s %s)" % (family(exc), unchanged))
+                rec["e2e"] = (e2e_request(), "(done %s)" % unchanged if exc is None
+                              else "(failed %s %s)" % (family(exc), unchanged))
             except docenc.Unsupported:
                 pass
         return rec
